@@ -56,24 +56,24 @@ def edit_op(rng):
     if r < 0.63:
         a = rng.choice(UNIVERSE)
         form = rng.choice(["%d" % a, "%d-" % a, "-%d" % a, "%d-%d" % (min(a, n), max(a, n))])
-        return [sess.E("DELETE " + form), "R500"], True
+        return [sess.E("DELETE " + form), "R100"], True
     if r < 0.71:
         form = rng.choice(["RENUM", "RENUM 100", "RENUM 100,20", "RENUM 5,0,5", "RENUM 1000,30,10", "RENUM 10,10,10"])
-        return [sess.E(form), "R500"], True
+        return [sess.E(form), "R100"], True
     if r < 0.75:
-        return [sess.E("NEW"), "R500"], True
+        return [sess.E("NEW"), "R100"], True
     if r < 0.8:
         text = "".join("%d %s\n" % (k, body(rng, k)) for k in sorted(rng.sample(UNIVERSE, rng.randint(1, 4))))
         return ["L:%s:0" % sess.hx(text)], True
     if r < 0.9:
-        return [sess.E(rng.choice(["RUN", "RUN %d" % n])), "R500"], False
-    return [sess.E(rng.choice(['PRINT "d"', "A=5", "Z=0", "GOTO %d" % n, "GOSUB %d" % n, "LIST", "CLEAR", "X=1:Y=2"])), "R500"], False
+        return [sess.E(rng.choice(["RUN", "RUN %d" % n])), "R100"], False
+    return [sess.E(rng.choice(['PRINT "d"', "A=5", "Z=0", "GOTO %d" % n, "GOSUB %d" % n, "LIST", "CLEAR", "X=1:Y=2"])), "R100"], False
 
 
 STALE_PROG = ["10 DEF FNA(X)=X+1", "20 FOR I=1 TO 3", "30 GOSUB 100", "40 NEXT I", "50 END", "100 PRINT \"S\";I", "110 STOP", "120 RETURN"]
 STALE_EDITS = [("insert", [sess.E('45 PRINT "new"')]), ("replace", [sess.E('100 PRINT "T";I')]), ("delete", [sess.E("120")]),
-               ("delete-absent", [sess.E("45")]), ("DELETE", [sess.E("DELETE 40"), "R500"]), ("RENUM", [sess.E("RENUM"), "R500"]),
-               ("NEW", [sess.E("NEW"), "R500"]), ("load", ["L:%s:0" % sess.hx('10 PRINT "L"\n20 PRINT "M"\n')]),
+               ("delete-absent", [sess.E("45")]), ("DELETE", [sess.E("DELETE 40"), "R100"]), ("RENUM", [sess.E("RENUM"), "R100"]),
+               ("NEW", [sess.E("NEW"), "R100"]), ("load", ["L:%s:0" % sess.hx('10 PRINT "L"\n20 PRINT "M"\n')]),
                ("insert-first", [sess.E('5 PRINT "first"')])]
 STALE_PROBES = [("CONT", 17), ("RETURN", 3), ("NEXT", 1), ("NEXT I", 1), ("PRINT FNA(1)", 18)]
 
@@ -82,18 +82,18 @@ def gen(tier, rng):
     cases = []
     n = 400 if tier == "quick" else 20000
     for hi in range(n):
-        calls = ["R500"]
+        calls = ["R100"]
         nedits = 0
         for k in sorted(rng.sample(UNIVERSE, rng.randint(2, 5))):
             calls.append(sess.E("%d %s" % (k, body(rng, k))))
         if rng.random() < 0.6:
-            calls += [sess.E("RUN"), "R500"]
+            calls += [sess.E("RUN"), "R100"]
         for _ in range(rng.randint(1, 7)):
             c, is_edit = edit_op(rng)
             calls += c
             nedits += 1 if is_edit else 0
         fin = rng.choice(["RUN", "RUN", "RUN %d" % rng.choice(UNIVERSE)])
-        calls += ["T", sess.E('PRINT "%s"' % MARK), "R500", sess.E(fin), "R500"]
+        calls += ["T", sess.E('PRINT "%s"' % MARK), "R100", sess.E(fin), "R100"]
         cases.append(Case(sess.session(calls), sig="history %d ending in %s" % (hi, fin), tag="history",
                           meta=("hist", hi, fin)))
     # stale resumption after an edit
@@ -101,19 +101,19 @@ def gen(tier, rng):
         for probe, code in STALE_PROBES:
             if ename == "delete-absent" and probe != "CONT":
                 continue      # the program was not edited: its frames still belong to the current compile
-            calls = ["R500"] + [sess.E(l) for l in STALE_PROG] + [sess.E("RUN"), "R500"] + ecalls + [sess.E('PRINT "%s"' % MARK), "R500", sess.E(probe), "R500"]
+            calls = ["R100"] + [sess.E(l) for l in STALE_PROG] + [sess.E("RUN"), "R100"] + ecalls + [sess.E('PRINT "%s"' % MARK), "R100", sess.E(probe), "R100"]
             cases.append(Case(sess.session(calls), sig="run stopped inside GOSUB inside FOR; %s; %s" % (ename, probe), tag="stale",
                               meta=("stale", ename, (probe, code))))
     # direct statements do not alter the stored program
     for di in range(60 if tier == "quick" else 2000):
-        calls = ["R500"]
+        calls = ["R100"]
         for k in sorted(rng.sample(UNIVERSE, rng.randint(2, 5))):
             calls.append(sess.E("%d %s" % (k, body(rng, k))))
         calls.append("T")
         for _ in range(rng.randint(1, 5)):
             calls += [sess.E(rng.choice(['PRINT "d"', "A=5:B$=\"x\"", "RUN", "GOTO 10", "GOSUB 20", "LIST", "CLEAR", "DIM Q(5)", "FOR I=1 TO 2:NEXT",
                                          "CONT", "RETURN", "READ Z", "RESTORE", "DEFINT A", "TRON", "TROFF", "LIST 20-", "SAVE \"x\"", "STOP", "END",
-                                         "INPUT Z", "PRINT 1E400", "PRINT 1/0", "X=", "RUN 20"])), "R500", "A5000:" + sess.hx("1")]
+                                         "INPUT Z", "PRINT 1E400", "PRINT 1/0", "X=", "RUN 20"])), "R100", "A5000:" + sess.hx("1")]
         calls.append("T")
         cases.append(Case(sess.session(calls), sig="direct statements %d" % di, tag="direct-preserve", meta=("direct", di, None)))
     return cases
@@ -138,7 +138,7 @@ def second_phase(cases, impl, rng):
             if not ts:
                 continue
             text = bytes.fromhex(ts[-1][2:]).decode("utf-8")
-            calls = ["R500"] + [sess.E(l) for l in text.split("\n") if l] + [sess.E('PRINT "%s"' % MARK), "R500", sess.E(c.meta[2]), "R500"]
+            calls = ["R100"] + [sess.E(l) for l in text.split("\n") if l] + [sess.E('PRINT "%s"' % MARK), "R100", sess.E(c.meta[2]), "R100"]
             more.append(Case(sess.session(calls), sig=c.sig + " (fresh)\n" + text, tag="fresh", meta=("fresh", c.meta[1], i)))
     return more
 
